@@ -25,7 +25,7 @@ MONITORS = {
     'c45': Mon2.C45AbsTriggers, 'c25': Mon2.C25DataStore,
     'c27': Mon2.C27Reload, 'c33': Mon2.C33Xtriggers,
     'c29': Mon2.C29Set, 'c30': Mon2.C30Remove,
-    'c28': Mon3.C28Trigger,
+    'c28': Mon3.C28Trigger, 'c32': Mon3.C32ClockExpire,
 }
 
 
